@@ -297,6 +297,11 @@ func (w *world) judge(final bool) {
 			if r == e || r.call < e.ret || r.ret == 0 {
 				continue
 			}
+			if w.closeCall > 0 && r.ret > w.closeCall {
+				// the operation had not returned when Close was called: a processor that is closing ignores
+				// Enqueue and Dequeue, so it may not have removed anything
+				continue
+			}
 			// r started after the item's Enqueue returned: once r returned the item is gone
 			if r.ret < c.s1 {
 				w.violationLocked("executed-after-removal/"+w.ctx(), fmt.Sprintf("item %d executed although %s(%s) had returned (stamp %d) before the loop's peek (stamp %d)", c.it.id, r.kind, r.key, r.ret, c.s1))
